@@ -308,46 +308,9 @@ class RandInfoBuilder(ModelVisitor,RandIF):
     def visit_expr_array_subscript(self, s : ExprArraySubscriptModel):
         fm = s.getFieldModel()
         if self._pass == 1:
-            # During pass 1, build out randsets based on constraint
-            # relationships
-
-            # If the field is already referenced by an existing randset
-            # that is not this one, we need to merge the sets
-            if fm in self._randset_field_m.keys():
-                # There's an existing randset that holds this field
-                # as a solve target
-                ex_randset = self._randset_field_m[fm]
-                if self._active_randset is None:
-                    self._active_randset = ex_randset
-                elif ex_randset is not self._active_randset:
-                    for f in self._active_randset.fields():
-                        # Relink to the new consolidated randset
-                        self._randset_field_m[f] = ex_randset
-                        ex_randset.add_field(f)
-                    # TODO: this might be later
-                    for c in self._active_randset.constraints():
-                        ex_randset.add_constraint(c)
-
-                    # Remove the previous randset
-                    idx = self._randset_m[self._active_randset]
-                    self._randset_m.pop(idx)
-                    self._randset_l[idx] = None
-                    self._active_randset = ex_randset
-            else:
-                # No existing randset holds this field as a
-                # solve target
-                if self._active_randset is None:
-                    self._active_randset = RandSet()
-                    idx = len(self._randset_l)
-                    self._randset_m[self._active_randset] = idx
-                    self._randset_l.append(self._active_randset)
-                    
-                # Need to register this field/randset mapping
-                self._active_randset.add_field(fm)
-                self._randset_field_m[fm] = self._active_randset
-
-            if fm in self._field_m.keys():
-                self._field_m.pop(fm)
+            # An element selected by subscript is a field reference
+            # like any other
+            self.process_fieldref(fm)
 
     def visit_expr_array_sum(self, e):
         # Summing the array relates all array elements
